@@ -401,6 +401,13 @@ func resolveReference(reference VocabularyReference, registry *RDFRegistry, ctx 
 	} else if _, ok := vocab.Properties[reference.Name]; ok {
 		return nil
 	} else if _, ok := vocab.Values[reference.Name]; ok {
+		// The value was added while parsing an earlier vocabulary. Its node
+		// may still have to act on the vocabulary being parsed now.
+		if n, e := registry.getNode(name); e == nil {
+			if va, ok := n.(interface{ ApplyToVocabulary(*ParsingContext) }); ok {
+				va.ApplyToVocabulary(ctx)
+			}
+		}
 		return nil
 	} else if n, e := registry.getNode(name); e != nil {
 		return e
